@@ -275,7 +275,7 @@ func runC17(p *Prog, l *Ledger) {
 	c17SharedGlobals(p, l, inScope)
 	c17PointerReceivers(p, l, inScope)
 	// ---- O8
-	c17WaitGroups(p, l, locks)
+	c17WaitGroups(p, l, locks, dead)
 
 	// ---- O3 ownership relations actually relied upon
 	var rels []string
@@ -884,7 +884,7 @@ func c17TypedLocks(a *c17Access) map[string]bool {
 
 // c17WaitGroups: for every struct field of type sync.WaitGroup in the module, the Add and Wait call sites on it share one
 // exclusively held mutex (identified by its field: package.Type.field).
-func c17WaitGroups(p *Prog, l *Ledger, locks *LockInfo) {
+func c17WaitGroups(p *Prog, l *Ledger, locks *LockInfo, dead map[*ssa.Function]bool) {
 	type site struct {
 		fn   *ssa.Function
 		ins  ssa.Instruction
@@ -892,7 +892,7 @@ func c17WaitGroups(p *Prog, l *Ledger, locks *LockInfo) {
 	}
 	sites := map[string][]site{}
 	for _, f := range p.Funcs {
-		if !p.InModule(f) || strings.HasPrefix(p.PkgOf(f), "examples") {
+		if !p.InModule(f) || strings.HasPrefix(p.PkgOf(f), "examples") || dead[f] {
 			continue
 		}
 		allInstrs(f, func(ins ssa.Instruction) {
